@@ -11,3 +11,95 @@ package account
 //@   requires 0 <= balance && balance <= types.MaxTokenBalance
 //@   ensures result1 == nil ==> result0 == balance + amount && 0 <= result0 && result0 <= types.MaxTokenBalance
 //@   ensures result1 != nil ==> result0 == balance
+
+// ---- C15: ledger view ----------------------------------------------------------------------------
+// accEnc is the (protobuf) encoding of an account record; accBal/accFro read balance and frozen
+// back from it (injectivity of the encoding in those fields: assumption). fmtAddr is the storage
+// spelling of an address (FormatAddrKey: hex addresses are case-folded).
+//@ smt (declare-fun accEnc (Int Int Int Bytes) Bytes)
+//@ smt (declare-fun accBal (Bytes) Int)
+//@ smt (declare-fun accFro (Bytes) Int)
+//@ smt (declare-fun accAddr (Bytes) Bytes)
+//@ smt (assert (forall ((c Int) (b Int) (f Int) (a Bytes)) (! (and (= (accBal (accEnc c b f a)) b) (= (accFro (accEnc c b f a)) f) (= (accAddr (accEnc c b f a)) a)) :pattern ((accEnc c b f a)))))
+//@ smt (declare-fun fmtAddr (Bytes) Bytes)
+//@ smt (declare-fun eprefix (Int) Bytes)
+//@ smt (declare-const str_colon Bytes)
+//@ smt (assert (and (= (blen str_colon) 1) (= (bat str_colon 0) 58)))
+//@ smt (define-fun ekey ((p Bytes) (e Bytes) (a Bytes)) Bytes (bcat (bcat (bcat p e) str_colon) (fmtAddr a)))
+//@ smt (define-fun ledgerOK ((has (Array Bytes Bool)) (val (Array Bytes Bytes)) (p Bytes)) Bool (forall ((e Bytes) (a Bytes)) (! (=> (select has (ekey p e a)) (= (fmtAddr (accAddr (select val (ekey p e a)))) (fmtAddr a))) :pattern ((select has (ekey p e a))))))
+//@ smt (define-fun balAt ((has (Array Bytes Bool)) (val (Array Bytes Bytes)) (k Bytes)) Int (ite (select has k) (accBal (select val k)) 0))
+//@ smt (define-fun froAt ((has (Array Bytes Bool)) (val (Array Bytes Bytes)) (k Bytes)) Int (ite (select has k) (accFro (select val k)) 0))
+
+//@ trusted func github.com/33cn/chain33/common/address.FormatAddrKey
+//@   frame allocates
+//@   ensures bytes(result) == fmtAddr(addr)
+//@ trusted func github.com/33cn/chain33/types.Encode
+//@   frame allocates
+//@   ensures istype(data, types.Account) && cast(data, types.Account) != nil ==> bytes(result) == accEnc(cast(data, types.Account).Currency, cast(data, types.Account).Balance, cast(data, types.Account).Frozen, cast(data, types.Account).Addr)
+//@ trusted func github.com/33cn/chain33/types.Decode
+//@   frame *msg
+//@   ensures result == nil && istype(msg, types.Account) ==> bytes(data) == accEnc(cast(msg, types.Account).Currency, cast(msg, types.Account).Balance, cast(msg, types.Account).Frozen, cast(msg, types.Account).Addr)
+
+//@ func (*DB).execAccountKey [C15]
+//@   requires bytes(acc.execAccountKeyPerfix) == eprefix(ref(acc))
+//@   opt overflow=assumed
+//@   frame allocates
+//@   ensures bytes(result) == ekey(eprefix(ref(acc)), execaddr, addr)
+
+// a missing record reads as the empty account of that address
+//@ func (*DB).LoadExecAccount [C15]
+//@   requires bytes(acc.execAccountKeyPerfix) == eprefix(ref(acc))
+//@   opt overflow=assumed panics=allowed
+//@   requires acc.db != nil
+//@   frame allocates
+//@   ensures fresh(result)
+//@   ensures acc.db.kvhas[ekey(eprefix(ref(acc)), execaddr, addr)] ==> accEnc(result.Currency, result.Balance, result.Frozen, result.Addr) == acc.db.kvval[ekey(eprefix(ref(acc)), execaddr, addr)]
+//@   ensures !acc.db.kvhas[ekey(eprefix(ref(acc)), execaddr, addr)] ==> result.Balance == 0 && result.Frozen == 0 && result.Addr == addr
+
+//@ func (*DB).GetExecKVSet [C15]
+//@   requires bytes(acc.execAccountKeyPerfix) == eprefix(ref(acc))
+//@   opt overflow=assumed
+//@   requires acc1 != nil
+//@   frame allocates
+//@   ensures len(result) == 1 && result[0] != nil
+//@   ensures bytes(result[0].Key) == ekey(eprefix(ref(acc)), execaddr, acc1.Addr)
+//@   ensures bytes(result[0].Value) == accEnc(acc1.Currency, acc1.Balance, acc1.Frozen, acc1.Addr)
+
+// saving writes exactly one record: the encoding of the account under its storage key
+//@ func (*DB).SaveExecAccount [C15]
+//@   requires bytes(acc.execAccountKeyPerfix) == eprefix(ref(acc))
+//@   opt overflow=assumed panics=allowed
+//@   requires acc1 != nil && acc.db != nil
+//@   frame allocates, *.kvhas, *.kvval
+//@   ensures acc.db.kvhas == store(old(acc.db.kvhas), ekey(eprefix(ref(acc)), execaddr, acc1.Addr), true)
+//@   ensures acc.db.kvval == store(old(acc.db.kvval), ekey(eprefix(ref(acc)), execaddr, acc1.Addr), accEnc(acc1.Currency, acc1.Balance, acc1.Frozen, acc1.Addr))
+//@   loop 0 invariant 0 <= i && i <= 1 && len(set) == 1 && set[0] != nil
+//@   loop 0 invariant bytes(set[0].Key) == ekey(eprefix(ref(acc)), execaddr, acc1.Addr) && bytes(set[0].Value) == accEnc(acc1.Currency, acc1.Balance, acc1.Frozen, acc1.Addr)
+//@   loop 0 invariant i == 0 ==> acc.db.kvhas == old(acc.db.kvhas) && acc.db.kvval == old(acc.db.kvval)
+//@   loop 0 invariant i == 1 ==> acc.db.kvhas == store(old(acc.db.kvhas), ekey(eprefix(ref(acc)), execaddr, acc1.Addr), true) && acc.db.kvval == store(old(acc.db.kvval), ekey(eprefix(ref(acc)), execaddr, acc1.Addr), accEnc(acc1.Currency, acc1.Balance, acc1.Frozen, acc1.Addr))
+
+//@ trusted func (*DB).CheckAmount
+//@   frame nothing
+//@   ensures result ==> amount > 0
+//@ pure func (*DB).execReceipt2
+//@ pure func (*DB).execReceipt
+//@ trusted func github.com/33cn/chain33/types.CloneAccount
+//@   opt fresh
+//@   frame allocates
+
+// Transfer inside an executor's sub-ledger: what the sender loses the receiver gains, nothing
+// else changes, an error changes nothing. kf / kt are the *storage keys* of the two accounts
+// (two spellings of one address share a key).
+//@ func (*DB).ExecTransfer [C15]
+//@   requires bytes(acc.execAccountKeyPerfix) == eprefix(ref(acc))
+//@   requires ledgerOK(acc.db.kvhas, acc.db.kvval, eprefix(ref(acc)))
+//@   ensures ledgerOK(acc.db.kvhas, acc.db.kvval, eprefix(ref(acc)))
+//@   opt overflow=assumed panics=allowed
+//@   requires acc.db != nil
+//@   frame allocates, *.kvhas, *.kvval
+//@   ensures result1 != nil ==> acc.db.kvhas == old(acc.db.kvhas) && acc.db.kvval == old(acc.db.kvval)
+//@   ensures result1 == nil ==> ekey(eprefix(ref(acc)), execaddr, from) != ekey(eprefix(ref(acc)), execaddr, to)
+//@   ensures result1 == nil ==> balAt(acc.db.kvhas, acc.db.kvval, ekey(eprefix(ref(acc)), execaddr, from)) == balAt(old(acc.db.kvhas), old(acc.db.kvval), ekey(eprefix(ref(acc)), execaddr, from)) - amount
+//@   ensures result1 == nil ==> balAt(acc.db.kvhas, acc.db.kvval, ekey(eprefix(ref(acc)), execaddr, to)) == balAt(old(acc.db.kvhas), old(acc.db.kvval), ekey(eprefix(ref(acc)), execaddr, to)) + amount
+//@   ensures result1 == nil ==> balAt(acc.db.kvhas, acc.db.kvval, ekey(eprefix(ref(acc)), execaddr, from)) >= 0
+//@   ensures result1 == nil ==> forall k Bytes :: k != ekey(eprefix(ref(acc)), execaddr, from) && k != ekey(eprefix(ref(acc)), execaddr, to) ==> acc.db.kvhas[k] == old(acc.db.kvhas[k]) && acc.db.kvval[k] == old(acc.db.kvval[k])
